@@ -36,7 +36,29 @@ static int compare(long stride, long phase) {
       bad++;
     }
   }
-  printf("COMPARE n=%llu values=%d bad=%llu\n", cnt, n, bad);
+  // the same signed lengths reached through other constructions: negation of the opposite length (gives a negative zero for
+  // 0) and the component constructor; compareTo must still order by signed length (operator== is not examined here)
+  auto make = [](long v, int how) {
+    if (how == 1) { TimePeriod p((int32_t) -v); time_period_mutation::negate(p); return p; }
+    if (how == 2) { long a = v < 0 ? -v : v; return TimePeriod((uint8_t) (a / 3600), (uint8_t) (a / 60 % 60), (uint8_t) (a % 60), (int8_t) (v < 0 ? -1 : 1)); }
+    if (how == 3) { long a = v < 0 ? -v : v; return TimePeriod((uint8_t) (a / 3600), (uint8_t) (a / 60 % 60), (uint8_t) (a % 60), (int8_t) (v <= 0 ? -1 : 1)); }
+    return TimePeriod((int32_t) v);
+  };
+  unsigned long long cnt2 = 0;
+  for (int i = 0; i < n; i += (i < 19 ? 1 : 7)) for (int j = 0; j < n; j += (j < 19 ? 1 : 5)) {
+    for (int ka = 0; ka < 4; ka++) for (int kb = 0; kb < 4; kb++) {
+      if (ka == 0 && kb == 0) continue;
+      TimePeriod a = make(vals[i], ka), b = make(vals[j], kb);
+      int want = vals[i] < vals[j] ? -1 : (vals[i] > vals[j] ? 1 : 0);
+      int got = a.compareTo(b);
+      cnt2++;
+      if (got != want || a.toSeconds() != vals[i]) {
+        if (bad < 10) printf("MISMATCH compare-constructed %ld(%d) %ld(%d) got=%d want=%d seconds=%ld\n", vals[i], ka, vals[j], kb, got, want, (long) a.toSeconds());
+        bad++;
+      }
+    }
+  }
+  printf("COMPARE n=%llu values=%d bad=%llu\n", cnt + cnt2, n, bad);
   return 0;
 }
 
